@@ -550,6 +550,7 @@ pub fn run(seed: u64, tier: &str, ev: &mut Evidence) -> Vec<Violation> {
             let j = rng.usize_below(specs.len());
             if j != i { if let Some(s) = specs[j].1.source() { if s.len() < 20_000 { history.push(s); } } }
         }
+        super::util::breadcrumb("C11", json!({"kind": "program", "program": specs[i].1.to_json()}));
         exercise(&specs[i].0, &specs[i].1, &mut rng, n_tuples, &history)
     });
     let mut raw = Vec::new();
